@@ -116,6 +116,21 @@ impl Engine for Twin {
             st.bump("refused: lock for another receiver");
             return Ok(());
         }
+        // "can never be used to lock LP for, or expand a position of, someone other than the sender":
+        // world B has not run the probe yet, so it shows everybody's positions as they were before
+        if sa.ok() && lock.is_some() {
+            for u in a.w.users.clone() {
+                if u.as_str() == sa.sender {
+                    continue;
+                }
+                let view = |w: &crate::world::World| -> Vec<(String, String, bool)> { w.all_positions(&u).into_iter().map(|p| (p.identifier, p.lp_asset.to_string(), p.open)).collect() };
+                let (after, before) = (view(&a.w), view(&b.w));
+                if after != before {
+                    return Err(format!("[C14] {what}: changed the positions of another account ({}): {:?} -> {:?}", u, before, after));
+                }
+            }
+            st.bump("locked single-asset deposits: other accounts' positions verified unchanged");
+        }
         // world B: the depositor swaps half, then deposits that half plus the proceeds
         let x = deposits[0].amount.u128();
         let half = x / 2;
